@@ -2,11 +2,14 @@
    Usage: lines_run impl | spec | enc ; stdin = one case per line; stdout = one result line per case.
    Case line:  olo ohi llo lhi clo chi rg ; cp cp cp ...  (decimal; the text is a list of Unicode scalar values;
                 rg = 1: also the two range sections, rg = 0: they stay empty)
-   Result line (impl):  four sections separated by '|':
+   Result line (impl):  six sections separated by '|':
      to_proto::position  for o in olo..ohi                          ->  l:c   or ! (panic)
      from_proto::position for l in llo..lhi, c in clo..chi          ->  o     or !
      to_proto::range     for a in olo..ohi, b in a..min(a+2,ohi)    ->  l:c-l:c or !
      from_proto::range   for consecutive positions P[k],P[k+1] of the enumeration above, both orders -> a-b or !
+     to_proto::folding_range for the same (a, b) as to_proto::range      ->  startline-endline or !
+     wrappers            for the same (a, b): "=" when inlay_hint / location / diagnostic / document_link /
+                         document_symbol give exactly what position / range give, else the first wrapper that differs
    If LineIndex::new panics the whole line is "!new".
    spec: same first two sections computed with pos_of / off_of (no panics possible).
    enc: prints the model's UTF-8 encoding of the text as decimal bytes. *)
@@ -66,6 +69,24 @@ let cmd_impl line =
     if rg = 1 then List.iter (fun ((l1, c1), (l2, c2)) ->
       add (match from_proto_range li ((n_of_int l1, n_of_int c1), (n_of_int l2, n_of_int c2)) with
            | Ok (x, y) -> Printf.sprintf "%d-%d" (int_of_n x) (int_of_n y) | Panic _ -> "!")) (consecutive ps);
+    Buffer.add_char b '|'; sep := "";
+    let pairs = List.concat_map (fun a -> List.map (fun e -> (a, e)) (range a (min (a + 2) ohi))) (range olo ohi) in
+    if rg = 1 then List.iter (fun (a, e) ->
+      add (match to_proto_folding_range li (n_of_int a, n_of_int e) with
+           | Ok (x, y) -> Printf.sprintf "%d-%d" (int_of_n x) (int_of_n y) | Panic _ -> "!")) pairs;
+    Buffer.add_char b '|'; sep := "";
+    (* wrappers of to_proto.rs against position / range: "=" when every wrapper gives what position / range give *)
+    if rg = 1 then List.iter (fun (a, e) ->
+      let r = (n_of_int a, n_of_int e) in
+      let base = to_proto_range li r in
+      let w =
+        if to_proto_inlay_hint_position li (n_of_int a) <> to_proto_position li (n_of_int a) then "inlay_hint"
+        else if to_proto_location_range li r <> base then "location"
+        else if to_proto_diagnostic_range li r <> base then "diagnostic"
+        else if to_proto_document_link_range li r <> base then "document_link"
+        else if to_proto_document_symbol_range li r <> (match base with Ok x -> Ok (x, x) | Panic p -> Panic p)
+        then "document_symbol" else "=" in
+      add w) pairs;
     Buffer.contents b
 
 let cmd_spec line =
